@@ -79,6 +79,16 @@ fn run_case(c: &Case) -> CaseOut {
             if real_out != snap.output {
                 oracle_failures.push("glue: stage-by-stage output differs from make_formatter().format()".to_string());
             }
+            // direct C01 oracle on the real entry point's output
+            {
+                let strip = |b: &[u8]| -> Vec<u8> {
+                    let s = String::from_utf8_lossy(b);
+                    s.chars().filter(|c| !(*c <= ' ' || *c == '\u{3000}')).map(|c| c.to_ascii_lowercase()).collect::<String>().into_bytes()
+                };
+                if strip(&real_out) != strip(c.input.as_bytes()) {
+                    oracle_failures.push("c01: non-blank characters of the output differ from the input's".to_string());
+                }
+            }
             bump(&mut stats, "tokens", snap.raw.len());
             bump(&mut stats, "lines", snap.lines.len());
             bump(&mut stats, "ignored_tokens", snap.marks.len());
@@ -118,7 +128,7 @@ fn run_case(c: &Case) -> CaseOut {
                 proto::list(&alnum),
             );
             let exp_line = format!(
-                "marks={}\tlv={}\tpre={}\tprec={}\tkr=1\twc=1\tout={}",
+                "marks={}\tlv={}\tpre={}\tprec={}\tkr=1\twc=1\tnd=1\tout={}",
                 proto::list(&snap.marks),
                 proto::lines(&snap.lines_voided),
                 proto::fmts(&snap.fmt_pre),
